@@ -88,6 +88,14 @@ def make_data(seed, ytype, ymiss, xmiss, shape='default'):
                 extra.iloc[j, extra.columns.get_loc(covs[int(rng.integers(0, len(covs)))])] = np.nan
             if 'Y' in pat:
                 extra.iloc[j, extra.columns.get_loc('Y')] = np.nan
+        if ytype != 'binary':
+            # the incomplete rows hold the most extreme recorded outcomes (a continuous outcome is rescaled by its
+            # range in the TMLE family: the range must be that of the retained rows)
+            keepy = np.flatnonzero(extra['Y'].notna().values)
+            if len(keepy) >= 1:
+                extra.iloc[keepy[0], extra.columns.get_loc('Y')] = float(np.nanmax(df['Y'].values) + 7)
+            if len(keepy) >= 2 and ytype == 'normal':
+                extra.iloc[keepy[1], extra.columns.get_loc('Y')] = float(np.nanmin(df['Y'].values) - 5)
         df = pd.concat([df.astype({c: float for c in covs + ['A']}), extra], ignore_index=True)
         df = df.iloc[rng.permutation(len(df))].reset_index(drop=True)
     else:
@@ -280,6 +288,8 @@ def run_tmle(df, covs, o):
     if cu:
         kw['custom_model'] = learner(cu, continuous=yt != 'binary')
     t.outcome_model(om, print_results=False, **kw)
+    if o.get('hist'):
+        t.fit()
     t.fit()
     est = {'RD': t.risk_difference, 'RR': t.risk_ratio, 'OR': t.odds_ratio} if yt == 'binary' else \
         {'ATE': t.average_treatment_effect}
@@ -298,6 +308,8 @@ def run_aiptw_dr(df, covs, o):
     kw = {'custom_model': learner(cu, continuous=yt != 'binary')} if cu else \
         {'continuous_distribution': 'poisson' if yt == 'poisson' else 'gaussian'}
     a.outcome_model(om, print_results=False, **kw)
+    if o.get('hist'):
+        a.fit()
     a.fit()
     est = {'RD': a.risk_difference, 'RR': a.risk_ratio} if yt == 'binary' else {'ATE': a.average_treatment_effect}
     return {k: float(v) for k, v in est.items()}, {}
@@ -413,6 +425,12 @@ def cells(which, ytype, has_ymiss, covs, rng, tier):
         out.append(dict(base, spec='sat', custom=str(rng.choice(['proba', 'predict']))))
     else:
         out.append(dict(cls=which, seed=int(rng.integers(0, 10 ** 6)), ytype=ytype))
+    # history on the one object: half of the cells of the classes with a documented refit (a second fit(), another
+    # marginal structural model or plan first) run after an earlier fit; judged like the others, and against a fresh object
+    if which in ('IPTW', 'TimeFixedGFormula', 'AIPTW', 'TMLE', 'GEstimationSNM', 'StochasticIPTW'):
+        for o in out:
+            if rng.integers(0, 2):
+                o['hist'] = ['twice', 'respec'][int(rng.integers(0, 2))]
     return out
 
 
@@ -519,6 +537,11 @@ def one_case(chk, drv, which, o, df, covs, dele, cc, cfs, ytype, case):
     # (a)
     chk.d(same_est(e1, e2, XTOL), '%s: rows missing exposure/covariates do not influence the result '
           '(= result after deleting them)' % which, case)
+    if o.get('hist'):
+        s6, r6 = attempt(RUN[which], df, covs, {k: v for k, v in o.items() if k != 'hist'})
+        case['fresh_object'] = r6[0] if s6 == 'ok' else repr(r6)[:300]
+        chk.d(s6 == 'ok' and same_est(e1, r6[0], dict(rtol=1e-10, atol=1e-12)), '%s: the missing-data / weight '
+              'handling is not compounded by an earlier fit() on the same object (= fresh object)' % which, case)
     # (b)
     if dc:
         s3, r3 = attempt(RUN[which], cc, covs, o)
@@ -613,7 +636,7 @@ def one_dataset(chk, drv, rng, ytype, ymiss, xmiss, tier, classes, only=None, se
             key = (seed, which, tuple(sorted((k, str(v)) for k, v in o.items())))
             chk.case(case, key if (n_inc > 0 or shifts) else None, sample=case if chk.evals % 37 == 0 else None)
             chk.count('%s/%s' % (which, '/'.join('%s=%s' % (k, v) for k, v in sorted(o.items())
-                                                 if k in ('miss', 'tgt', 'pm', 'snm', 'cb', 'w', 'custom'))))
+                                                 if k in ('miss', 'tgt', 'pm', 'snm', 'cb', 'w', 'custom', 'hist'))))
             st, val = attempt(one_case, chk, drv, which, o, df, covs, dele, cc, cfs, ytype, case)
             if st == 'err':
                 import traceback
@@ -688,11 +711,15 @@ MAIN = ['IPTW', 'StochasticIPTW', 'TimeFixedGFormula', 'AIPTW', 'TMLE', 'Stochas
 
 def run(chk, drv, rng, tier):
     reps = 1 if tier == 'quick' else 3
+    k = 0
     for _ in range(reps):
         for ytype in (('binary', 'normal') if tier == 'quick' else ('binary', 'normal', 'poisson')):
             for ymiss in (None, 'mcar', 'mar'):
                 for xmiss in (None, 'mcar', 'mar'):
-                    cls = MAIN if tier == 'thorough' else MAIN[:7] + [str(rng.choice(MAIN[7:]))]
+                    # one (quick) / two (thorough) cross-fit classes per data set, in rotation: every class meets every
+                    # outcome type with incomplete rows in each run
+                    cls = MAIN[:7] + [MAIN[7 + k % 4]] + ([MAIN[7 + (k + 1 + k // 4) % 4]] if tier == 'thorough' else [])
+                    k += 1
                     one_dataset(chk, drv, rng, ytype, ymiss, xmiss, tier, cls)
         for _ in range(2):
             one_survival(chk, drv, rng, tier)
@@ -717,7 +744,8 @@ def replay(rec):
         for g in chk.d_fail:
             print(g['gate'], g['what'], '| options', o, '| on data', g['case'].get('on_data'), '| after deletion',
                   g['case'].get('after_deletion'), '| complete case', g['case'].get('complete_case'), '| want',
-                  g['case'].get('want'), '| built-in', g['case'].get('built_in'), '| mismatch',
+                  g['case'].get('want'), '| built-in', g['case'].get('built_in'), '| fresh', g['case'].get('fresh_object'),
+                  '| mismatch',
                   g['case'].get('mismatch'), g['case'].get('error'))
         n += len(chk.d_fail)
     print('failures reproduced:', n)
